@@ -45,7 +45,7 @@ import (
 const c05Tau = 1e-12
 
 func init() {
-	Registry["C05"] = &Check{Level: "exploration", QuickBudget: 150, ThoroughBudget: 1200, Run: runC05}
+	Registry["C05"] = &Check{Level: "exploration", QuickBudget: 400, ThoroughBudget: 2400, Run: runC05}
 }
 
 // c05Region is one entry of the region catalogue together with its oracle.
@@ -1287,9 +1287,10 @@ func runC05(c *core.Ctx) {
 	c.Count("grazing/ContainsCell_true", st.grazeContained.Load())
 	c.Count("grazing/IntersectsCell_false", st.grazeDisjoint.Load())
 	c.Count("grazing/boundary_noise_candidates_examined", st.grazeCandidates.Load())
-	if c.OnlySub == "" {
+	if c.OnlySub == "" && c.CapsHit() == 0 { // a run cut short by its wall budget is reported as such, not as vacuous
 		if st.interiorNonEmpty.Load() == 0 || st.predContained.Load() == 0 || st.predDisjoint.Load() == 0 || st.grazeContained.Load() == 0 || st.grazeDisjoint.Load() == 0 || st.coverProbes.Load() == 0 {
 			panic(core.HarnessError("C05: a one-sided claim was never exercised (vacuous run)"))
 		}
 	}
+	c05History(c) // sub-check "covering-histories" (c05_history.go)
 }
